@@ -25,6 +25,7 @@ use crate::{
         Serializable, U128Conversions,
         boolean::Boolean,
         boolean_array::{BA3, BA5, BA8, BA16, BA20, BA32, BA64},
+        boolean_array::BA256,
         ec_prime_field::Fp25519,
     },
     protocol::{
@@ -46,7 +47,7 @@ use crate::{
 };
 
 pub fn scenarios() -> Vec<&'static dyn Scenario> {
-    vec![&BaScenario, &ConvScenario]
+    vec![&BaScenario, &ConvScenario, &AggScenario]
 }
 
 fn mask(w: usize) -> u128 {
@@ -430,6 +431,216 @@ impl Scenario for ConvScenario {
         let mut res = RunRes::pass(shape, o.decisions > 0, Some(o));
         res.probe("conv_values", total as u64);
         res.probe(&format!("conv_np{np}"), 1);
+        res
+    }
+}
+
+// ------------------------------------------------------------------------------------------------
+// c07_agg : bucket aggregation (`aggregate_values`) called directly, as one call or as a history of
+// calls over chunks of the rows that share the per-layer record counters (as breakdown-reveal
+// aggregation does), every chunk size >= 1 incl. odd ones
+// ------------------------------------------------------------------------------------------------
+
+pub struct AggScenario;
+
+/// per helper: per chunk, per bucket (left, right)
+type AggRes = Result<Vec<Vec<(u128, u128)>>, String>;
+
+struct AggRun {
+    outcome: SimOutcome,
+    res: BTreeMap<usize, AggRes>,
+}
+
+macro_rules! agg_run {
+    ($name:ident, $b:literal, $lane_ty:ty, $ov:ty, $mode:ident) => {
+        fn $name(p: &Value, spec: &SchedSpec, rows: &[Vec<u128>]) -> AggRun {
+            use crate::protocol::ipa_prf::aggregation::{AGGREGATE_DEPTH, aggregate_values};
+            let (vw, malicious) = (pu(p, "vw"), pb(p, "malicious"));
+            let chunks = pvec(p, "chunks");
+            let knobs = &p["knobs"];
+            let (active, read_size, world_seed) = (pu(knobs, "active"), pu(knobs, "read_size"), pu64(knobs, "world_seed"));
+            let input_seed = pu64(p, "input_seed");
+            let log: StdArc<StdMutex<BTreeMap<usize, AggRes>>> = StdArc::new(StdMutex::new(BTreeMap::new()));
+            let log2 = StdArc::clone(&log);
+            let rows = rows.to_vec();
+            let outcome = sim_async(spec, StdArc::new(AtomicBool::new(false)), move || {
+                let (log, rows, chunks) = (StdArc::clone(&log2), rows.clone(), chunks.clone());
+                async move {
+                    let world = TestWorld::new_with(&world_config(world_seed, active, read_size, None));
+                    let mut sr = Rng::sub(input_seed, 99);
+                    type Row = BitDecomposed<$lane_ty>;
+                    let mut inputs: [Vec<Row>; 3] = [Vec::new(), Vec::new(), Vec::new()];
+                    for r in &rows {
+                        let [a, b, c] = crate::verif::c07_circuits::share_bits::<$lane_ty, $b>(r, vw, &mut sr);
+                        inputs[0].push(a);
+                        inputs[1].push(b);
+                        inputs[2].push(c);
+                    }
+                    let (log, chunks) = (&log, &chunks);
+                    macro_rules! body {
+                        ($ctx:ident, $inp:ident) => {{
+                            let h = role_idx($ctx.role());
+                            let mut record_ids = [RecordId::FIRST; AGGREGATE_DEPTH];
+                            let mut out: Vec<Vec<(u128, u128)>> = Vec::new();
+                            let mut it = $inp.into_iter();
+                            let mut failure: Option<Error> = None;
+                            // proof batches are numbered consecutively over the calls that have something to prove: a one-row call
+                            // performs no multiplication and sends no proof, and the proof channels are ordered by batch index (the
+                            // in-tree chunked caller can only have such a call last in its layer)
+                            let mut proof_batches = 0usize;
+                            for (_ci, len) in chunks.iter().enumerate() {
+                                let ci = proof_batches;
+                                proof_batches += usize::from(*len > 1);
+                                let chunk: Vec<Row> = it.by_ref().take(*len).collect();
+                                // one proof batch per call, as the in-tree chunked caller does
+                                let v = $ctx.clone().dzkp_validator(TEST_DZKP_STEPS, usize::MAX);
+                                let r = aggregate_values::<_, $ov, $b>(v.context(), stream::iter(chunk).map(Ok).boxed(), *len, Some(&mut record_ids)).await;
+                                let r = match r {
+                                    Ok(x) => v.validate_indexed(ci).await.map(|()| x),
+                                    Err(e) => Err(e),
+                                };
+                                match r {
+                                    Ok(x) => out.push(crate::verif::c07_circuits::open_bits::<$lane_ty, $b>(&x)),
+                                    Err(e) => {
+                                        failure = Some(e);
+                                        break;
+                                    }
+                                }
+                            }
+                            log.lock().unwrap().insert(h, match failure { None => Ok(out), Some(e) => Err(e.to_string()) });
+                        }};
+                    }
+                    agg_modes!($mode, malicious, world, inputs, Row, body);
+                }
+            });
+            AggRun { outcome, res: log.lock().unwrap().clone() }
+        }
+    };
+}
+
+macro_rules! agg_modes {
+    (both, $malicious:ident, $world:ident, $inputs:ident, $row:ty, $body:ident) => {
+        if $malicious {
+            $world.malicious(Shared3($inputs), |ctx, inp: Vec<$row>| async move { $body!(ctx, inp) }).await;
+        } else {
+            $world.semi_honest(Shared3($inputs), |ctx, inp: Vec<$row>| async move { $body!(ctx, inp) }).await;
+        }
+    };
+    (sh, $malicious:ident, $world:ident, $inputs:ident, $row:ty, $body:ident) => {
+        assert!(!$malicious, "harness: this vector width has no proof-carrying mode");
+        $world.semi_honest(Shared3($inputs), |ctx, inp: Vec<$row>| async move { $body!(ctx, inp) }).await;
+    };
+}
+
+agg_run!(agg_8_8, 8, AdditiveShare<Boolean, 8>, BA8, sh);
+agg_run!(agg_32_8, 32, AdditiveShare<Boolean, 32>, BA8, both);
+agg_run!(agg_32_16, 32, AdditiveShare<Boolean, 32>, BA16, both);
+agg_run!(agg_256_8, 256, AdditiveShare<Boolean, 256>, BA8, both);
+agg_run!(agg_256_32, 256, AdditiveShare<Boolean, 256>, BA32, both);
+
+impl Scenario for AggScenario {
+    fn name(&self) -> &'static str {
+        "c07_agg"
+    }
+
+    fn generate(&self, seed: u64, tier: Tier) -> Value {
+        let mut r = Rng::sub(seed, 7_31);
+        let (b, ov) = r.pick(&[(8usize, 8usize), (32, 8), (32, 16), (256, 8), (256, 32)]);
+        let vw = r.pick(&[1usize, 3, 3, 5, 8]).min(ov);
+        let n = r.range(1, if tier == Tier::Quick { 24 } else { 70 });
+        // history: one call, or several calls over chunks of any size >= 1
+        let mut chunks = Vec::new();
+        if r.chance(1, 3) {
+            chunks.push(n);
+        } else {
+            let mut left = n;
+            while left > 0 {
+                let c = match r.below(3) { 0 => r.pick(&[1usize, 2, 4, 8]), 1 => r.pick(&[3usize, 5, 7]), _ => r.range(1, 9) }.min(left);
+                chunks.push(c);
+                left -= c;
+            }
+        }
+        let mut knobs = draw_knobs(&mut r);
+        knobs["active"] = json!(r.pick(&[4usize, 8, 16]));
+        let mut p = json!({"b": b, "ov": ov, "vw": vw, "rows": n, "chunks": chunks, "malicious": b != 8 && r.chance(1, 2), "dense": b <= 32 || r.chance(1, 4),
+            "hot": r.chance(1, 3), "input_seed": r.next_u64() >> 12, "knobs": knobs});
+        p["sched"] = SchedSpec::draw(&mut r, 2000 + n as u64 * 300, 10_000_000);
+        p
+    }
+
+    fn exec(&self, p: &Value, explicit: Option<Vec<u32>>) -> RunRes {
+        let (b, ov, vw, n, malicious) = (pu(p, "b"), pu(p, "ov"), pu(p, "vw"), pu(p, "rows"), pb(p, "malicious"));
+        let chunks = pvec(p, "chunks");
+        let knobs = &p["knobs"];
+        if ![(8usize, 8usize), (32, 8), (32, 16), (256, 8), (256, 32)].contains(&(b, ov)) || vw == 0 || vw > ov || vw > 8 || n == 0 || n > 200
+            || chunks.is_empty() || chunks.iter().any(|c| *c == 0) || chunks.iter().sum::<usize>() != n || (malicious && b == 8)
+            || !pu(knobs, "active").is_power_of_two() || pu(knobs, "active") < 2 || pu(knobs, "read_size") == 0
+        {
+            return RunRes::invalid("agg: plan");
+        }
+        let mut r = Rng::sub(pu64(p, "input_seed"), 1);
+        let (dense, hot) = (pb(p, "dense"), pb(p, "hot"));
+        let hot_bucket = r.below(b);
+        let rows: Vec<Vec<u128>> = (0..n)
+            .map(|_| {
+                let one = r.below(b);
+                (0..b).map(|k| {
+                    if hot && k == hot_bucket { mask(vw) }            // drives one bucket to saturation
+                    else if dense { boundary(&mut r, vw) }
+                    else if k == one { boundary(&mut r, vw) }          // attribution-like: one contribution per row
+                    else { 0 }
+                }).collect()
+            })
+            .collect();
+        let spec = SchedSpec::from_json(&p["sched"], explicit);
+        let shape = format!("agg b{b} ov{ov} vw{vw} n{n} c{:?} m{}", chunks, u8::from(malicious));
+        let run = match (b, ov) {
+            (8, _) => agg_8_8(p, &spec, &rows),
+            (32, 8) => agg_32_8(p, &spec, &rows),
+            (32, _) => agg_32_16(p, &spec, &rows),
+            (256, 8) => agg_256_8(p, &spec, &rows),
+            _ => agg_256_32(p, &spec, &rows),
+        };
+        let o = run.outcome.clone();
+        match o.class {
+            "finished" => {}
+            "deadlock" | "stepcap" => return RunRes::violation("circ_no_progress", format!("{}: aggregation of {n} rows in calls of {chunks:?} rows; {}", o.class, truncate(&o.panic_msg.clone().unwrap_or_default(), 300)), shape, Some(o)),
+            _ => return RunRes::violation("circ_panic", format!("panic in a fault-free run: {}", o.panic_msg.clone().unwrap_or_default()), shape, Some(o)),
+        }
+        let mut per: Vec<&Vec<Vec<(u128, u128)>>> = Vec::new();
+        for h in 0..3 {
+            match run.res.get(&h) {
+                Some(Ok(v)) => per.push(v),
+                Some(Err(e)) => return RunRes::violation("circ_spurious_error", format!("helper {} failed in a fault-free aggregation: {e}", h + 1), shape, Some(o)),
+                None => return RunRes::violation("circ_no_result", format!("helper {} produced no result", h + 1), shape, Some(o)),
+            }
+        }
+        let mut start = 0;
+        let mut saturated = 0u64;
+        for (ci, len) in chunks.iter().enumerate() {
+            for k in 0..b {
+                for h in 0..3 {
+                    if per[h][ci][k].1 != per[(h + 1) % 3][ci][k].0 {
+                        return RunRes::violation("circ_inconsistent_sharing", format!("call {ci} bucket {k}: H{}.right != H{}.left", h + 1, (h + 1) % 3 + 1), shape, Some(o));
+                    }
+                }
+                let got = per[0][ci][k].0 ^ per[1][ci][k].0 ^ per[2][ci][k].0;
+                let total: u128 = rows[start..start + len].iter().map(|r| r[k]).sum();
+                let want = total.min(mask(ov));
+                saturated += u64::from(total >= mask(ov));
+                if got != want {
+                    return RunRes::violation("circ_wrong_result",
+                        format!("aggregate_values call {ci} ({len} rows of {vw}-bit values, {ov}-bit output, {b} buckets): bucket {k} = {got}, expected min({total}, {})", mask(ov)),
+                        shape, Some(o));
+                }
+            }
+            start += len;
+        }
+        let mut res = RunRes::pass(shape, o.decisions > 0, Some(o));
+        res.probe("agg_rows", n as u64);
+        res.probe("agg_calls_sharing_counters", u64::from(chunks.len() > 1));
+        res.probe("agg_odd_chunk_then_another", u64::from(chunks.len() > 1 && chunks[..chunks.len() - 1].iter().any(|c| c % 2 == 1 && *c > 1)));
+        res.probe("agg_saturated_buckets", saturated);
         res
     }
 }
